@@ -900,6 +900,23 @@ Section Proofs.
   Lemma csat_true_iff I c : csat I c = true <-> exists l, In l c /\ tv I l = true.
   Proof. apply existsb_exists. Qed.
 
+  (* a clause that the clean-up empties is false wherever the top literal is true: this is why
+     returning FALSE_CNF there keeps completeness *)
+  Lemma emptied_clause_false E tl c : tv E tl = true ->
+    clean_clause tl (neg_lit tl) c = Some [] -> csat E c = false.
+  Proof.
+    intros Ht Hcc. unfold clean_clause in Hcc.
+    destruct (existsb (fun l => ctrue l || term_eqb l tl) c); [discriminate|]. injection Hcc as Ef.
+    destruct (csat E c) eqn:Hcs; auto. exfalso.
+    apply csat_true_iff in Hcs. destruct Hcs as (l & Hl & Hv).
+    assert (Hin : In l (filter (fun l => negb (term_eqb l (neg_lit tl)) && negb (cfalse l)) c)).
+    { apply filter_In. split; auto. apply andb_true_iff. split; apply negb_true_iff.
+      - destruct (term_eqb l (neg_lit tl)) eqn:Eq; auto. apply term_eqb_eq in Eq. subst.
+        rewrite neg_lit_tv, Ht in Hv. discriminate.
+      - destruct (cfalse l) eqn:Eq; auto. rewrite (cfalse_tv _ _ Eq) in Hv. discriminate. }
+    rewrite Ef in Hin. destruct Hin.
+  Qed.
+
   Lemma cleanup_complete E tl cl : sat E cl = true -> tv E tl = true -> sat E (cleanup asimp tl cl) = true.
   Proof.
     intros Hs Ht. unfold cleanup. destruct cl as [|c0 cl0] eqn:Ecl.
@@ -907,7 +924,11 @@ Section Proofs.
     - rewrite <- Ecl in *. clear Ecl c0 cl0. destruct (existsb is_nil cl) eqn:En.
       + apply existsb_exists in En. destruct En as (c & Hc & Hn). destruct c; [|discriminate].
         pose proof (sat_In _ _ _ Hs Hc). discriminate.
-      + unfold sat. apply forallb_forall. intros c' Hc'. apply in_flat_map in Hc'. destruct Hc' as (c & Hc & Hin).
+      + cbn [orb]. destruct (has_emptied asimp tl cl) eqn:Eh.
+        { exfalso. unfold has_emptied in Eh. apply existsb_exists in Eh. destruct Eh as (c & Hc & Hcc).
+          destruct (clean_clause tl (neg_lit tl) c) as [[|x r]|] eqn:Ecc; try discriminate.
+          pose proof (sat_In _ _ _ Hs Hc) as Hcs. rewrite (emptied_clause_false E tl c Ht Ecc) in Hcs. discriminate. }
+        unfold sat. apply forallb_forall. intros c' Hc'. apply in_flat_map in Hc'. destruct Hc' as (c & Hc & Hin).
         unfold clean_clause in Hin. destruct (existsb (fun l => ctrue l || term_eqb l tl) c); [destruct Hin|].
         destruct (filter (fun l => negb (term_eqb l (neg_lit tl)) && negb (cfalse l)) c) as [|x r] eqn:Ef; [destruct Hin|].
         destruct Hin as [<-|[]]. rewrite <- Ef. apply csat_true_iff.
@@ -950,13 +971,14 @@ Section Proofs.
     (forall J', sat J' cl = true -> tv J' tl = true -> tv J' f = true) ->
     (cl = [] \/ symlit N tl) -> Forall (Forall (litok N)) cl ->
     (forall n, In n N -> ~ In (n, TBool) (fv f)) ->
-    emptied asimp tl cl = false -> sat J (cleanup asimp tl cl) = true -> tv J f = true.
+    sat J (cleanup asimp tl cl) = true -> tv J f = true.
   Proof.
-    intros S K L Hfr Hem Hs. unfold cleanup in Hs. unfold emptied in Hem.
+    intros S K L Hfr Hs. unfold cleanup in Hs.
     destruct cl as [|c0 cl0] eqn:Ecl.
     - cbn in Hs. rewrite orb_false_r, andb_true_r in Hs. apply S; auto.
     - rewrite <- Ecl in *. destruct K as [K|K]; [congruence|]. clear Ecl c0 cl0.
-      destruct (existsb is_nil cl) eqn:En; [discriminate|]. cbn [negb andb] in Hem.
+      destruct (existsb is_nil cl) eqn:En; [discriminate|]. cbn [orb] in Hs.
+      destruct (has_emptied asimp tl cl) eqn:Hem; [discriminate|]. unfold has_emptied in Hem.
       destruct K as (n & Hn & Htl).
       set (b := match tl with T ONot _ => false | _ => true end).
       set (J' := bind1 J (n, TBool) (VBool b)).
@@ -1018,39 +1040,16 @@ Section Proofs.
     - apply fresh_leaf_litok. intros n Hn. apply Hfr; auto.
   Qed.
 
-  (* C11, soundness - the provable part: when the clean-up empties no clause *)
-  Theorem convert_sound_partial w f st cl st' J : walk_ok w f -> start_ok f st ->
-    convert_with asimp w f st = Some (cl, st') -> emptied_with asimp w f st = false ->
-    sat J cl = true -> holds J f.
+  (* C11, soundness: every interpretation satisfying the output satisfies the input *)
+  Theorem convert_sound w f st cl st' J : walk_ok w f -> start_ok f st ->
+    convert_with asimp w f st = Some (cl, st') -> sat J cl = true -> holds J f.
   Proof.
-    intros Hw Hst Hc Hem Hs. unfold convert_with in Hc. unfold emptied_with in Hem.
+    intros Hw Hst Hc Hs. unfold convert_with in Hc.
     destruct (w f st) as [[[|tl cl0] s1]|] eqn:E; try discriminate. injection Hc as <- <-.
     pose proof (top_lits_ok _ _ _ _ _ _ Hw Hst E) as L.
     destruct (Hw _ _ _ _ E) as [Hle (_ & S & K & _)]. destruct (start_facts _ _ _ Hst Hle) as [_ Hfr].
     apply holds_tv. apply (cleanup_sound (map snd (intro s1)) f tl cl0 J); auto.
     intros n Hn. apply Hfr; auto.
-  Qed.
-
-  (* ... and where it does empty one, the input is unsatisfiable: FALSE_CNF was the right answer *)
-  Theorem convert_emptied_unsat w f st I : walk_ok w f -> start_ok f st ->
-    emptied_with asimp w f st = true -> ~ holds I f.
-  Proof.
-    intros Hw Hst Hem Hf. unfold emptied_with in Hem.
-    destruct (w f st) as [[[|tl cl0] s1]|] eqn:E; try discriminate.
-    destruct (Hw _ _ _ _ E) as [Hle (C & _)]. destruct (start_facts _ _ _ Hst Hle) as [Hnd Hfr].
-    destruct (C I Hnd) as [Hs Hk]; [apply fresh_leaf_stable; intros n Hn; apply Hfr; auto|].
-    apply holds_tv in Hf. rewrite Hf in Hk.
-    unfold emptied in Hem. apply andb_true_iff in Hem. destruct Hem as [_ Hem].
-    apply existsb_exists in Hem. destruct Hem as (c & Hc & Hcc).
-    unfold clean_clause in Hcc. destruct (existsb (fun l => ctrue l || term_eqb l tl) c); [discriminate|].
-    destruct (filter (fun l => negb (term_eqb l (neg_lit tl)) && negb (cfalse l)) c) as [|x r] eqn:Ef; [|discriminate].
-    pose proof (sat_In _ _ _ Hs Hc) as Hcs. apply csat_true_iff in Hcs. destruct Hcs as (l & Hl & Hv).
-    assert (Hin : In l (filter (fun l => negb (term_eqb l (neg_lit tl)) && negb (cfalse l)) c)).
-    { apply filter_In. split; auto. apply andb_true_iff. split; apply negb_true_iff.
-      - destruct (term_eqb l (neg_lit tl)) eqn:Eq; auto. apply term_eqb_eq in Eq. subst.
-        rewrite neg_lit_tv, Hk in Hv. discriminate.
-      - destruct (cfalse l) eqn:Eq; auto. rewrite (cfalse_tv _ _ Eq) in Hv. discriminate. }
-    rewrite Ef in Hin. destruct Hin.
   Qed.
 
   (* ---------------------------------------------------------------- shape *)
@@ -1112,7 +1111,7 @@ Section Proofs.
       - intros a Ha. apply atomic_litc. eapply leaves_atomic; eauto. }
     destruct Hlits as [Htl Hcl].
     - unfold cleanup. destruct cl0 as [|c0 cl1] eqn:Ecl; [repeat constructor; auto|].
-      rewrite <- Ecl in *. destruct (existsb is_nil cl0); [repeat constructor|].
+      rewrite <- Ecl in *. destruct (existsb is_nil cl0 || has_emptied asimp tl cl0); [repeat constructor|].
       apply Forall_forall. intros c' Hc'. apply in_flat_map in Hc'. destruct Hc' as (c & Hc & Hin).
       unfold clean_clause in Hin. destruct (existsb (fun l => ctrue l || term_eqb l tl) c); [destruct Hin|].
       destruct (filter (fun l => negb (term_eqb l (neg_lit tl)) && negb (cfalse l)) c) as [|x r] eqn:Ef; [destruct Hin|].
@@ -1763,13 +1762,9 @@ Section Final.
     exists I'. repeat split; auto; try apply A. now apply as_formula_holds.
   Qed.
 
-  Theorem cnf_sound_partial f st cl st' J : start_ok f st ->
-    cnf_convert asimp f st = Some (cl, st') -> cnf_emptied asimp f st = false ->
-    sat J cl = true -> holds J f.
-  Proof. intros Hst H He HJ. exact (convert_sound_partial asimp Hs _ f st cl st' J (cnf_walk_ok asimp Hs f) Hst H He HJ). Qed.
-
-  Theorem cnf_emptied_unsat f st I : start_ok f st -> cnf_emptied asimp f st = true -> ~ holds I f.
-  Proof. intros Hst He. exact (convert_emptied_unsat asimp Hs _ f st I (cnf_walk_ok asimp Hs f) Hst He). Qed.
+  Theorem cnf_sound f st cl st' J : start_ok f st ->
+    cnf_convert asimp f st = Some (cl, st') -> sat J cl = true -> holds J f.
+  Proof. intros Hst H HJ. exact (convert_sound asimp Hs _ f st cl st' J (cnf_walk_ok asimp Hs f) Hst H HJ). Qed.
 
   Theorem pol_shape f st cl st' : shape_hyp asimp ->
     pol_convert asimp f st = Some (cl, st') -> clauses_of_literals cl.
@@ -1784,16 +1779,14 @@ Section Final.
     exists I'. repeat split; auto; try apply A. now apply as_formula_holds.
   Qed.
 
-  Theorem pol_sound_partial f st cl st' J : start_ok f st ->
-    pol_convert asimp f st = Some (cl, st') -> pol_emptied asimp f st = false ->
-    sat J cl = true -> holds J f.
-  Proof. intros Hst H He HJ. exact (convert_sound_partial asimp Hs _ f st cl st' J (pol_walk_ok asimp Hs f) Hst H He HJ). Qed.
+  Theorem pol_sound f st cl st' J : start_ok f st ->
+    pol_convert asimp f st = Some (cl, st') -> sat J cl = true -> holds J f.
+  Proof. intros Hst H HJ. exact (convert_sound asimp Hs _ f st cl st' J (pol_walk_ok asimp Hs f) Hst H HJ). Qed.
 
-  Theorem pol_emptied_unsat f st I : start_ok f st -> pol_emptied asimp f st = true -> ~ holds I f.
-  Proof. intros Hst He. exact (convert_emptied_unsat asimp Hs _ f st I (pol_walk_ok asimp Hs f) Hst He). Qed.
 End Final.
 
-(* ------------------------------------------------------------------ refutation of full soundness *)
+(* ------------------------------------------------------------------ regression cases *)
+(* the witnesses that refuted soundness before the repair of the clean-up (pysmt 7e10806) *)
 Definition id_simp (t : term) : term := t.
 Lemma id_simp_sound : simp_sound id_simp.
 Proof. intros I t. reflexivity. Qed.
@@ -1809,31 +1802,14 @@ Definition all_true : interp :=
 Lemma wit_start : start_ok wit_f wit_st.
 Proof. split; [reflexivity|]. intros n ty H. cbn in H. destruct H as [[= <- _]|[]]. now left. Qed.
 
-(* cnf(And(a, FALSE)) = {{a}}: satisfied by a := true, which does not satisfy And(a, FALSE) *)
-Theorem cnf_sound_refuted :
-  exists asimp f st cl st' J, simp_sound asimp /\ start_ok f st /\
-    cnf_convert asimp f st = Some (cl, st') /\ sat J cl = true /\ ~ holds J f.
-Proof.
-  exists id_simp, wit_f, wit_st, [[sym_a]]. eexists. exists all_true.
-  split; [apply id_simp_sound|]. split; [apply wit_start|]. split; [vm_compute; reflexivity|].
-  split; [reflexivity|]. intros H. apply holds_tv in H. discriminate H.
-Qed.
-Theorem pol_sound_refuted :
-  exists asimp f st cl st' J, simp_sound asimp /\ start_ok f st /\
-    pol_convert asimp f st = Some (cl, st') /\ sat J cl = true /\ ~ holds J f.
-Proof.
-  exists id_simp, wit_f, wit_st, [[sym_a]]. eexists. exists all_true.
-  split; [apply id_simp_sound|]. split; [apply wit_start|]. split; [vm_compute; reflexivity|].
-  split; [reflexivity|]. intros H. apply holds_tv in H. discriminate H.
-Qed.
-(* the criterion of the partial theorem detects the witness *)
-Example wit_emptied : cnf_emptied id_simp wit_f wit_st = true /\ pol_emptied id_simp wit_f wit_st = true.
-Proof. split; vm_compute; reflexivity. Qed.
-(* cnf(And(FALSE, FALSE)) is the empty clause set, i.e. TRUE *)
-Example wit_false_false :
-  exists st', cnf_convert id_simp (T OAnd [TFalse; TFalse]) (init_state 0 []) = Some ([], st') /\
-              as_formula [] = TTrue.
-Proof. eexists. split; [vm_compute; reflexivity | reflexivity]. Qed.
+(* cnf(And(a, FALSE)), cnf(And(FALSE, FALSE)), cnf(Or(FALSE, FALSE)) are FALSE_CNF = {{}} (were {{a}}, {}, {}) *)
+Example regression_emptied :
+  (exists st', cnf_convert id_simp wit_f wit_st = Some ([[]], st')) /\
+  (exists st', pol_convert id_simp wit_f wit_st = Some ([[]], st')) /\
+  (exists st', cnf_convert id_simp (T OAnd [TFalse; TFalse]) (init_state 0 []) = Some ([[]], st')) /\
+  (exists st', cnf_convert id_simp (T OOr [TFalse; TFalse]) (init_state 0 []) = Some ([[]], st')) /\
+  as_formula [[]] = TFalse.
+Proof. repeat split; try (eexists; vm_compute; reflexivity). Qed.
 
 (* the hypotheses of the positive theorems are satisfiable by a non-trivial formula:
    (a & b) | !(c <-> ite(a, b, TRUE)),  manager knowing a, b, c and a user symbol FV0 *)
@@ -1845,16 +1821,13 @@ Example ex_hypotheses :
   start_ok ex_f ex_st /\
   (exists cl st', cnf_convert id_simp ex_f ex_st = Some (cl, st') /\ List.length cl = 11 /\
                   introduced st' = ["FV1"; "FV2"; "FV3"; "FV4"]%string) /\
-  cnf_emptied id_simp ex_f ex_st = false /\
   (exists cl st', pol_convert id_simp ex_f ex_st = Some (cl, st') /\ List.length cl = 10) /\
-  pol_emptied id_simp ex_f ex_st = false /\
   holds all_true ex_f.
 Proof.
   split.
   { split; [reflexivity|]. intros n ty H. vm_compute in H.
     repeat (destruct H as [H|H]; [injection H as <- _; cbn; tauto|]). destruct H. }
   split; [eexists; eexists; vm_compute; repeat split; reflexivity|].
-  split; [vm_compute; reflexivity|].
   split; [eexists; eexists; vm_compute; repeat split; reflexivity|].
-  split; [vm_compute; reflexivity|]. apply holds_tv. reflexivity.
+  apply holds_tv. reflexivity.
 Qed.
